@@ -605,6 +605,33 @@ Proof.
   pose proof (pow_big a b Ha Hb). rewrite pow2_31, pow2_32 in *. lia.
 Qed.
 
+(** bases 0, 1, -1 never overflow (with [sexp_big_undef] this lets the driver answer huge exponents
+    without computing the power) *)
+Lemma sexp_base_0 b : 0 <= b -> sexp 0 b = Some (if b =? 0 then 1 else 0).
+Proof.
+  intros Hb. unfold sexp. replace (0 <=? b) with true by lia.
+  destruct (b =? 0) eqn:E; [replace b with 0 by lia; reflexivity|].
+  rewrite Z.pow_0_l by lia. reflexivity.
+Qed.
+Lemma sexp_base_1 b : 0 <= b -> sexp 1 b = Some 1.
+Proof. intros Hb. unfold sexp. replace (0 <=? b) with true by lia. rewrite Z.pow_1_l by lia. reflexivity. Qed.
+Lemma sexp_base_m1 b : 0 <= b -> sexp (-1) b = Some (if Z.even b then 1 else -1).
+Proof.
+  intros Hb. unfold sexp. replace (0 <=? b) with true by lia. rewrite pow_m1 by lia.
+  destruct (Z.even b); reflexivity.
+Qed.
+Lemma uexp_base_0 a b : u a = 0 -> uexp a b = Some (if u b =? 0 then 1 else 0).
+Proof.
+  intros Ha. unfold uexp. cbv zeta. rewrite Ha. pose proof (u_range b).
+  destruct (u b =? 0) eqn:E; [replace (u b) with 0 by lia; reflexivity|].
+  rewrite Z.pow_0_l by lia. reflexivity.
+Qed.
+Lemma uexp_base_1 a b : u a = 1 -> uexp a b = Some 1.
+Proof.
+  intros Ha. unfold uexp. cbv zeta. rewrite Ha. pose proof (u_range b).
+  rewrite Z.pow_1_l by lia. reflexivity.
+Qed.
+
 Lemma uexp_spec a b r : uexp a b = Some r <-> (u a ^ u b < 2 ^ 32 /\ in_s r = true /\ u r = u a ^ u b).
 Proof.
   unfold uexp. cbv zeta. pose proof (u_range a) as Ha. pose proof (u_range b) as Hb.
@@ -629,3 +656,625 @@ Example ex_exp : sexp 2 10 = Some 1024 /\ sexp (-2) 31 = Some MIN_S /\ sexp 2 31
   /\ sexp (-1) (-3) = Some (-1) /\ sexp 0 (-1) = None /\ sexp 0 0 = Some 1
   /\ uexp 2 31 = Some MIN_S /\ uexp 2 32 = None /\ uexp (-1) 1 = Some (-1).
 Proof. vm_compute. auto 12. Qed.
+
+(** * 10. Strings: byte-wise comparison, substr, contains *)
+
+Arguments N.ltb : simpl never.
+Arguments N.eqb : simpl never.
+
+(** lexicographic order on bytes as documented for std::string::compare: the first position where the
+    strings differ decides (by unsigned byte value); if there is none the shorter string is smaller *)
+Definition lex_lt (a b : bytes) : Prop :=
+  exists p, (exists y rb, a = p /\ b = p ++ y :: rb) \/
+            (exists x y ra rb, a = p ++ x :: ra /\ b = p ++ y :: rb /\ (x < y)%N).
+
+Lemma bytes_ltb_lex a b : bytes_ltb a b = true <-> lex_lt a b.
+Proof.
+  revert b. induction a as [|x a IH]; intros [|y b]; simpl.
+  - split; [discriminate|]. intros [p [(y & rb & _ & H) | (x & y & ra & rb & H & _)]];
+      destruct p; simpl in H; discriminate H.
+  - split; [|reflexivity]. intros _. exists []. left. exists y, b. auto.
+  - split; [discriminate|]. intros [p [(y' & rb & _ & H) | (x' & y' & ra & rb & _ & H & _)]];
+      destruct p; simpl in H; discriminate H.
+  - destruct (x <? y)%N eqn:E1.
+    { split; [|reflexivity]. intros _. exists []. right. exists x, y, a, b. repeat split. lia. }
+    destruct (y <? x)%N eqn:E2.
+    { split; [discriminate|]. intros [p [(y' & rb & Ha & Hb) | (x' & y' & ra & rb & Ha & Hb & Hlt)]].
+      - destruct p as [|c p]; [discriminate|]. simpl in *. injection Ha as -> _. injection Hb as -> _. lia.
+      - destruct p as [|c p]; simpl in *.
+        + injection Ha as -> _. injection Hb as -> _. lia.
+        + injection Ha as -> _. injection Hb as -> _. lia. }
+    assert (x = y) by lia. subst y. rewrite IH. split.
+    + intros [p [(y' & rb & -> & ->) | (x' & y' & ra & rb & -> & -> & Hlt)]].
+      * exists (x :: p). left. exists y', rb. auto.
+      * exists (x :: p). right. exists x', y', ra, rb. auto.
+    + intros [p [(y' & rb & Ha & Hb) | (x' & y' & ra & rb & Ha & Hb & Hlt)]].
+      * destruct p as [|c p]; [discriminate|]. simpl in *. injection Ha as -> ->. injection Hb as ->.
+        exists p. left. exists y', rb. auto.
+      * destruct p as [|c p]; simpl in *.
+        { injection Ha as -> _. injection Hb as -> _. lia. }
+        injection Ha as -> ->. injection Hb as ->. exists p. right. exists x', y', ra, rb. auto.
+Qed.
+
+Lemma bytes_ltb_irrefl a : bytes_ltb a a = false.
+Proof. induction a as [|x a IH]; simpl; [reflexivity|]. replace (x <? x)%N with false by lia. exact IH. Qed.
+
+Lemma bytes_ltb_trans a b c : bytes_ltb a b = true -> bytes_ltb b c = true -> bytes_ltb a c = true.
+Proof.
+  revert b c. induction a as [|x a IH]; intros [|y b] [|z c]; simpl; try discriminate; try reflexivity.
+  destruct (x <? y)%N eqn:E1, (y <? z)%N eqn:E2.
+  - intros _ _. replace (x <? z)%N with true by lia. reflexivity.
+  - destruct (z <? y)%N eqn:E3; [discriminate|]. intros _ _. replace (x <? z)%N with true by lia. reflexivity.
+  - destruct (y <? x)%N eqn:E3; [discriminate|]. intros _ _. replace (x <? z)%N with true by lia. reflexivity.
+  - destruct (y <? x)%N eqn:E3; [discriminate|]. destruct (z <? y)%N eqn:E4; [discriminate|].
+    replace (x <? z)%N with false by lia. replace (z <? x)%N with false by lia. apply IH.
+Qed.
+
+Lemma bytes_ltb_total a b : bytes_ltb a b = false -> bytes_ltb b a = false -> a = b.
+Proof.
+  revert b. induction a as [|x a IH]; intros [|y b]; simpl; try discriminate; try reflexivity.
+  destruct (x <? y)%N eqn:E1; [discriminate|]. destruct (y <? x)%N eqn:E2; [discriminate|].
+  intros H1 H2. assert (x = y) by lia. subst. f_equal. apply IH; assumption.
+Qed.
+
+Lemma bytes_ltb_asym a b : bytes_ltb a b = true -> bytes_ltb b a = false.
+Proof.
+  intros H. destruct (bytes_ltb b a) eqn:E; [|reflexivity].
+  pose proof (bytes_ltb_trans _ _ _ H E) as H'. rewrite bytes_ltb_irrefl in H'. discriminate.
+Qed.
+
+(** a proper prefix is smaller; bytes compare as unsigned (0x80.. above ASCII) *)
+Example ex_bytes_ltb : (bytes_ltb [97;98] [97;98;99] = true /\ bytes_ltb [97;200] [97;98] = false
+  /\ bytes_ltb [] [0] = true /\ bytes_ltb [66] [97] = true)%N.
+Proof. vm_compute. auto. Qed.
+
+(** substr *)
+Lemma substr_spec s idx len : 0 <= idx <= Z.of_nat (length s) -> 0 <= len ->
+  substr s idx len = firstn (Z.to_nat len) (skipn (Z.to_nat idx) s).
+Proof.
+  intros Hi Hl. unfold substr.
+  replace ((idx <? 0) || (Z.of_nat (length s) <? idx)) with false by lia.
+  replace (len <? 0) with false by lia. reflexivity.
+Qed.
+Lemma substr_neg_len s idx len : 0 <= idx <= Z.of_nat (length s) -> len < 0 ->
+  substr s idx len = skipn (Z.to_nat idx) s.
+Proof.
+  intros Hi Hl. unfold substr.
+  replace ((idx <? 0) || (Z.of_nat (length s) <? idx)) with false by lia.
+  replace (len <? 0) with true by lia. reflexivity.
+Qed.
+Lemma substr_out_of_range s idx len : idx < 0 \/ Z.of_nat (length s) < idx -> substr s idx len = [].
+Proof.
+  intros H. unfold substr.
+  replace ((idx <? 0) || (Z.of_nat (length s) <? idx)) with true by lia. reflexivity.
+Qed.
+Lemma substr_length_le s idx len : (length (substr s idx len) <= length s)%nat.
+Proof.
+  unfold substr. destruct ((idx <? 0) || (Z.of_nat (length s) <? idx)); [simpl; lia|].
+  cbv zeta. destruct (len <? 0).
+  - rewrite skipn_length. lia.
+  - rewrite firstn_length, skipn_length. lia.
+Qed.
+(** the result is a contiguous piece of [s], at offset idx *)
+Lemma substr_piece s idx len : 0 <= idx <= Z.of_nat (length s) ->
+  exists a b, s = a ++ substr s idx len ++ b /\ length a = Z.to_nat idx.
+Proof.
+  intros Hi. exists (firstn (Z.to_nat idx) s).
+  assert (Hl : length (firstn (Z.to_nat idx) s) = Z.to_nat idx) by (rewrite firstn_length; lia).
+  destruct (Z_lt_le_dec len 0).
+  - exists []. rewrite substr_neg_len, app_nil_r, firstn_skipn by lia. auto.
+  - exists (skipn (Z.to_nat len) (skipn (Z.to_nat idx) s)).
+    rewrite substr_spec, firstn_skipn, firstn_skipn by lia. auto.
+Qed.
+Lemma substr_length s idx len : 0 <= idx <= Z.of_nat (length s) -> 0 <= len ->
+  Z.of_nat (length (substr s idx len)) = Z.min len (Z.of_nat (length s) - idx).
+Proof. intros Hi Hl. rewrite substr_spec, firstn_length, skipn_length by lia. lia. Qed.
+
+Example ex_substr : (substr [1;2;3;4;5] 1%Z 3%Z = [2;3;4] /\ substr [1;2;3] 3%Z 1%Z = []
+  /\ substr [1;2;3] 4%Z 1%Z = [] /\ substr [1;2;3] (-1)%Z 2%Z = [] /\ substr [1;2;3] 1%Z (-1)%Z = [2;3]
+  /\ substr [1;2;3] 1%Z 100%Z = [2;3])%N.
+Proof. vm_compute. auto 8. Qed.
+
+(** contains *)
+Lemma has_substr_spec p s : has_substr p s = true <-> exists a b, s = a ++ p ++ b.
+Proof.
+  induction s as [|c s IH]; simpl.
+  - rewrite orb_false_r, is_prefix_spec. split.
+    + intros [r Hr]. exists [], r. exact Hr.
+    + intros (a & b & H). destruct a; [exists b; exact H | discriminate].
+  - rewrite orb_true_iff, is_prefix_spec, IH. split.
+    + intros [[r Hr] | (a & b & ->)].
+      * exists [], r. exact Hr.
+      * exists (c :: a), b. reflexivity.
+    + intros (a & b & H). destruct a as [|c' a].
+      * left. exists b. exact H.
+      * right. simpl in H. injection H as _ ->. exists a, b. reflexivity.
+Qed.
+Example ex_has_substr : (has_substr [2;3] [1;2;3;4] = true /\ has_substr [3;2] [1;2;3;4] = false
+  /\ has_substr [] [] = true /\ has_substr [1] [] = false)%N.
+Proof. vm_compute. auto. Qed.
+
+(** * 11. to_string / to_number round trip *)
+
+Arguments N.leb : simpl never.
+Arguments N.mul : simpl never.
+Arguments N.add : simpl never.
+Arguments N.sub : simpl never.
+Arguments N.pow : simpl never.
+
+Definition is_dec_digit (c : N) : Prop := (48 <= c <= 57)%N.
+
+Lemma digit_in_dec d : 0 <= d < 10 -> digit_in 10 (Z.to_N (48 + d)) = Some (Z.to_N d).
+Proof.
+  intros Hd. unfold digit_in, digit_val.
+  replace ((48 <=? Z.to_N (48 + d)) && (Z.to_N (48 + d) <=? 57))%N with true by lia.
+  replace (Z.to_N (48 + d) - 48)%N with (Z.to_N d) by lia.
+  replace (Z.to_N d <? 10)%N with true by lia. reflexivity.
+Qed.
+
+Lemma digits_value_app base l1 l2 a :
+  digits_value base (l1 ++ l2) a =
+  match digits_value base l1 a with Some v => digits_value base l2 v | None => None end.
+Proof.
+  revert a. induction l1 as [|c l1 IH]; intros a; simpl; [reflexivity|].
+  destruct (digit_in base c); [apply IH | reflexivity].
+Qed.
+
+(** the digit loop of std::to_string: at most [fuel] decimal digits, most significant first, whose
+    value (as parsed back by the digit accumulation of strtol) is [n] *)
+Lemma digits_of_pos_spec f : forall n acc, (1 <= f)%nat -> 0 <= n < 10 ^ Z.of_nat f ->
+  exists ds, digits_of_pos f n acc = ds ++ acc /\ ds <> [] /\ Forall is_dec_digit ds /\
+    forall a, digits_value 10 ds a = Some (a * 10 ^ N.of_nat (length ds) + Z.to_N n)%N.
+Proof.
+  induction f as [|f IH]; intros n acc Hf Hn; [lia|].
+  cbn [digits_of_pos]. cbv zeta.
+  assert (Hd : 0 <= n mod 10 < 10) by (apply Z.mod_pos_bound; lia).
+  destruct (n / 10 =? 0) eqn:E.
+  - exists [Z.to_N (48 + n mod 10)]. split; [reflexivity|]. split; [discriminate|].
+    split; [constructor; [unfold is_dec_digit; lia | constructor]|].
+    intros a. cbn [digits_value]. rewrite digit_in_dec by assumption. f_equal.
+    cbn [length]. change (10 ^ N.of_nat 1)%N with 10%N.
+    assert (n mod 10 = n) by (Z.div_mod_to_equations; lia). lia.
+  - assert (Hq : 0 < n / 10) by (Z.div_mod_to_equations; lia).
+    assert (Hf' : (1 <= f)%nat).
+    { destruct f; [|lia]. change (10 ^ Z.of_nat 1) with 10 in Hn. Z.div_mod_to_equations. lia. }
+    assert (Hn' : 0 <= n / 10 < 10 ^ Z.of_nat f).
+    { split; [lia|]. apply Z.div_lt_upper_bound; [lia|].
+      rewrite Nat2Z.inj_succ, Z.pow_succ_r in Hn by lia. lia. }
+    destruct (IH (n / 10) (Z.to_N (48 + n mod 10) :: acc) Hf' Hn') as (ds & Heq & Hne & Hall & Hval).
+    exists (ds ++ [Z.to_N (48 + n mod 10)]). split; [rewrite Heq, <- app_assoc; reflexivity|].
+    split; [destruct ds; discriminate|].
+    split; [apply Forall_app; split; [assumption | constructor; [unfold is_dec_digit; lia | constructor]]|].
+    intros a. rewrite digits_value_app, Hval. cbn [digits_value]. rewrite digit_in_dec by assumption.
+    f_equal. rewrite app_length. cbn [length]. rewrite Nat.add_1_r, Nat2N.inj_succ, N.pow_succ_r'.
+    set (P := (10 ^ N.of_nat (length ds))%N).
+    assert (Z.to_N n = Z.to_N (n / 10) * 10 + Z.to_N (n mod 10))%N by (Z.div_mod_to_equations; lia).
+    lia.
+Qed.
+
+Lemma in_s_lt_pow10 z : in_s z = true -> 0 <= Z.abs z < 10 ^ Z.of_nat 12.
+Proof. intros H. apply in_s_iff in H. rewrite pow2_31 in H. change (10 ^ Z.of_nat 12) with 1000000000000. lia. Qed.
+
+(** std::to_string(int) produces a complete decimal literal denoting the same number *)
+Lemma dec_of_Z_literal z : in_s z = true -> literal 10 true (dec_of_Z z) z.
+Proof.
+  intros Hz. pose proof (in_s_lt_pow10 z Hz) as Hb. unfold dec_of_Z, literal.
+  destruct (z <? 0) eqn:E.
+  - destruct (digits_of_pos_spec 12 (- z) [] ltac:(lia) ltac:(lia)) as (ds & Heq & Hne & _ & Hval).
+    exists [], [45%N], ds, (Z.to_N (- z)). rewrite Heq, app_nil_r.
+    split; [reflexivity|]. split; [reflexivity|]. split; [unfold sign_ok; auto|].
+    split; [discriminate|]. split; [exact Hne|]. split.
+    + rewrite Hval. f_equal; lia.
+    + cbn [sign_neg]. change (45 =? 45)%N with true. cbv iota. rewrite Z2N.id by lia. lia.
+  - destruct (digits_of_pos_spec 12 z [] ltac:(lia) ltac:(lia)) as (ds & Heq & Hne & _ & Hval).
+    exists [], [], ds, (Z.to_N z). rewrite Heq, app_nil_r.
+    split; [reflexivity|]. split; [reflexivity|]. split; [unfold sign_ok; auto|].
+    split; [discriminate|]. split; [exact Hne|]. split.
+    + rewrite Hval. f_equal; lia.
+    + cbn [sign_neg]. rewrite Z2N.id by lia. reflexivity.
+Qed.
+
+(** to_string then reading it as a signed fact column gives the number back *)
+Theorem dec_of_Z_fact_signed z : in_s z = true -> fact_signed (dec_of_Z z) = Some z.
+Proof.
+  intros Hz. apply fact_signed_accept_iff. split; [apply dec_of_Z_literal, Hz | apply in_s_iff, Hz].
+Qed.
+
+Lemma is_prefix_0x_digits x ds : x <> 48%N -> (57 < x)%N -> Forall is_dec_digit ds ->
+  is_prefix [48%N; x] ds = false.
+Proof.
+  intros _ Hx H. destruct ds as [|c1 [|c2 r]]; simpl; [reflexivity | apply andb_false_r |].
+  inversion H as [|? ? _ H2]; subst. inversion H2 as [|? ? Hc2 _]; subst. unfold is_dec_digit in Hc2.
+  replace (x =? c2)%N with false by lia. simpl. apply andb_false_r.
+Qed.
+
+Lemma is_prefix_minus_digits p ds : Forall is_dec_digit ds -> is_prefix (45%N :: p) ds = false.
+Proof.
+  intros H. destruct ds as [|c r]; simpl; [reflexivity|].
+  inversion H as [|? ? Hc _]; subst. unfold is_dec_digit in Hc.
+  replace (45 =? c)%N with false by lia. reflexivity.
+Qed.
+
+(** to_number(to_string(z)) = z: the dispatch on 0b / 0x prefixes never fires on a decimal rendering *)
+Theorem to_number_dec_of_Z z : in_s z = true -> to_number (dec_of_Z z) = Some z.
+Proof.
+  intros Hz. pose proof (dec_of_Z_fact_signed z Hz) as Hf.
+  unfold fact_signed in Hf. apply complete_some in Hf.
+  unfold to_number, ram_signed_auto.
+  assert (Hp : forall x, x <> 48%N -> (57 < x)%N ->
+             is_prefix [45%N; 48%N; x] (dec_of_Z z) = false /\ is_prefix [48%N; x] (dec_of_Z z) = false).
+  { intros x Hx1 Hx2. pose proof (in_s_lt_pow10 z Hz) as Hb. unfold dec_of_Z.
+    destruct (z <? 0) eqn:E.
+    - destruct (digits_of_pos_spec 12 (- z) [] ltac:(lia) ltac:(lia)) as (ds & Heq & _ & Hall & _).
+      rewrite Heq, app_nil_r. split.
+      + cbn [is_prefix]. change (45 =? 45)%N with true. cbn [andb]. apply is_prefix_0x_digits; assumption.
+      + reflexivity.
+    - destruct (digits_of_pos_spec 12 z [] ltac:(lia) ltac:(lia)) as (ds & Heq & _ & Hall & _).
+      rewrite Heq, app_nil_r. split.
+      + apply is_prefix_minus_digits, Hall.
+      + apply is_prefix_0x_digits; assumption. }
+  unfold B_M0b, B_0b, B_M0x, B_0x.
+  destruct (Hp 98%N ltac:(lia) ltac:(lia)) as [-> ->].
+  destruct (Hp 120%N ltac:(lia) ltac:(lia)) as [-> ->].
+  cbn [orb]. rewrite Hf. reflexivity.
+Qed.
+
+Example ex_dec_of_Z : (dec_of_Z 0 = [48] /\ dec_of_Z (-2147483648) = [45;50;49;52;55;52;56;51;54;52;56]
+  /\ dec_of_Z 907 = [57;48;55])%N /\ to_number (dec_of_Z (-42)) = Some (-42).
+Proof. vm_compute. auto. Qed.
+
+(** * 12. The [range] generator (EvaluatorUtil.h runRange; DatalogDefs.range_values) *)
+
+(** the enumeration is an arithmetic progression starting at [x] ... *)
+Lemma range_s_progression fuel : forall x to st,
+  range_s fuel x to st =
+  map (fun k => x + Z.of_nat k * st) (seq 0 (length (range_s fuel x to st))).
+Proof.
+  induction fuel as [|f IH]; intros x to st; [reflexivity|].
+  cbn [range_s].
+  assert (Hcons : x :: range_s f (x + st) to st =
+    map (fun k => x + Z.of_nat k * st) (seq 0 (length (x :: range_s f (x + st) to st)))).
+  { cbn [length seq map]. f_equal; [lia|].
+    rewrite <- seq_shift, map_map. rewrite IH at 1. apply map_ext. intros k. lia. }
+  destruct (0 <? st); [destruct (x <? to); [exact Hcons | reflexivity]|].
+  destruct (st <? 0); [destruct (to <? x); [exact Hcons | reflexivity] | reflexivity].
+Qed.
+
+(** ... every element is on the right side of the bound ... *)
+Lemma range_s_bound fuel : forall x to st y, In y (range_s fuel x to st) ->
+  (0 < st /\ y < to) \/ (st < 0 /\ to < y).
+Proof.
+  induction fuel as [|f IH]; intros x to st y; [intros []|].
+  cbn [range_s]. destruct (0 <? st) eqn:E1.
+  - destruct (x <? to) eqn:E2; [|intros []]. intros [<- | H]; [lia | apply (IH _ _ _ _ H)].
+  - destruct (st <? 0) eqn:E3; [|intros []].
+    destruct (to <? x) eqn:E2; [|intros []]. intros [<- | H]; [lia | apply (IH _ _ _ _ H)].
+Qed.
+
+(** ... and when the fuel was not exhausted the next value of the progression is beyond the bound *)
+Lemma range_s_stop fuel : forall x to st, st <> 0 ->
+  (length (range_s fuel x to st) < fuel)%nat ->
+  let e := x + Z.of_nat (length (range_s fuel x to st)) * st in
+  (0 < st -> to <= e) /\ (st < 0 -> e <= to).
+Proof.
+  induction fuel as [|f IH]; intros x to st Hst; [cbn; lia|].
+  cbn [range_s]. destruct (0 <? st) eqn:E1.
+  - destruct (x <? to) eqn:E2.
+    + cbn [length]. intros Hl. specialize (IH (x + st) to st Hst ltac:(lia)). cbv zeta in *. lia.
+    + cbn [length]. intros _. cbv zeta. lia.
+  - replace (st <? 0) with true by lia. destruct (to <? x) eqn:E2.
+    + cbn [length]. intros Hl. specialize (IH (x + st) to st Hst ltac:(lia)). cbv zeta in *. lia.
+    + cbn [length]. intros _. cbv zeta. lia.
+Qed.
+
+Lemma range_s_length_le fuel : forall x to st, (length (range_s fuel x to st) <= fuel)%nat.
+Proof.
+  induction fuel as [|f IH]; intros x to st; [cbn; lia|]. cbn [range_s].
+  destruct (0 <? st); [destruct (x <? to); cbn [length]; [specialize (IH (x + st) to st)|]; lia|].
+  destruct (st <? 0); [destruct (to <? x); cbn [length]; [specialize (IH (x + st) to st)|]; lia|].
+  cbn; lia.
+Qed.
+
+Lemma range_s_nth_in fuel x to st k : (k < length (range_s fuel x to st))%nat ->
+  In (x + Z.of_nat k * st) (range_s fuel x to st).
+Proof.
+  intros Hk. rewrite range_s_progression. apply in_map_iff. exists k. split; [reflexivity|].
+  apply in_seq. lia.
+Qed.
+
+(** the fuel chosen by [range_values] is never exhausted *)
+Lemma range_s_fuel_enough x to st : st <> 0 ->
+  let n := Z.abs (to - x) / Z.abs st + 2 in
+  (length (range_s (Z.to_nat n) x to st) < Z.to_nat n)%nat.
+Proof.
+  intros Hst n. set (l := range_s (Z.to_nat n) x to st).
+  assert (Hq : 0 <= Z.abs (to - x) / Z.abs st) by (apply Z.div_pos; lia).
+  destruct (length l) as [|m] eqn:El; [lia|].
+  assert (Hin : In (x + Z.of_nat m * st) l) by (apply range_s_nth_in; fold l; lia).
+  apply range_s_bound in Hin.
+  assert (Hm : Z.of_nat m <= Z.abs (to - x) / Z.abs st).
+  { apply Z.div_le_lower_bound; [lia|]. nia. }
+  lia.
+Qed.
+
+(** signed range with an explicit step: exactly from, from+step, ... strictly before [to] *)
+Theorem range_values_pos_step from to st l : 0 < st ->
+  range_values TS from to (Some st) = Ok l ->
+  l = map (fun k => from + Z.of_nat k * st) (seq 0 (length l)) /\
+  forall x, In x l <-> exists k, 0 <= k /\ x = from + k * st /\ x < to.
+Proof.
+  intros Hst. unfold range_values. replace (st =? 0) with false by lia.
+  cbv zeta. destruct (4096 <? _); [discriminate|].
+  destruct (in_s _); [|discriminate]. intros [= <-].
+  split; [apply range_s_progression|].
+  pose proof (range_s_fuel_enough from to st ltac:(lia)) as Hf. cbv zeta in Hf.
+  pose proof (range_s_stop _ from to st ltac:(lia) Hf) as [Hstop _]. specialize (Hstop Hst).
+  set (r := range_s _ from to st) in *. intros x. split.
+  - intros Hin. pose proof (range_s_bound _ _ _ _ _ Hin) as Hb.
+    unfold r in Hin. rewrite range_s_progression in Hin. apply in_map_iff in Hin as (k & <- & _).
+    exists (Z.of_nat k). split; [lia|]. split; [reflexivity | lia].
+  - intros (k & Hk & -> & Hlt).
+    assert (k < Z.of_nat (length r)) by nia.
+    replace k with (Z.of_nat (Z.to_nat k)) by lia. apply range_s_nth_in. fold r. lia.
+Qed.
+
+(** mirror image for a negative step: from, from+step, ... strictly above [to] *)
+Theorem range_values_neg_step from to st l : st < 0 ->
+  range_values TS from to (Some st) = Ok l ->
+  l = map (fun k => from + Z.of_nat k * st) (seq 0 (length l)) /\
+  forall x, In x l <-> exists k, 0 <= k /\ x = from + k * st /\ to < x.
+Proof.
+  intros Hst. unfold range_values. replace (st =? 0) with false by lia.
+  cbv zeta. destruct (4096 <? _); [discriminate|].
+  destruct (in_s _); [|discriminate]. intros [= <-].
+  split; [apply range_s_progression|].
+  pose proof (range_s_fuel_enough from to st ltac:(lia)) as Hf. cbv zeta in Hf.
+  pose proof (range_s_stop _ from to st ltac:(lia) Hf) as [_ Hstop]. specialize (Hstop Hst).
+  set (r := range_s _ from to st) in *. intros x. split.
+  - intros Hin. pose proof (range_s_bound _ _ _ _ _ Hin) as Hb.
+    unfold r in Hin. rewrite range_s_progression in Hin. apply in_map_iff in Hin as (k & <- & _).
+    exists (Z.of_nat k). split; [lia|]. split; [reflexivity | lia].
+  - intros (k & Hk & -> & Hlt).
+    assert (k < Z.of_nat (length r)) by nia.
+    replace k with (Z.of_nat (Z.to_nat k)) by lia. apply range_s_nth_in. fold r. lia.
+Qed.
+
+(** step 0: the single value [from], unless the range is empty *)
+Theorem range_values_zero_step from to :
+  range_values TS from to (Some 0) = Ok (if from =? to then [] else [from]).
+Proof. reflexivity. Qed.
+
+(** no step given: +1 when from <= to, -1 otherwise *)
+Theorem range_values_default_step from to :
+  range_values TS from to None = range_values TS from to (Some (if from <=? to then 1 else -1)).
+Proof. reflexivity. Qed.
+
+(** every produced value is a 32-bit value, and the C++ loop variable never overflowed *)
+Theorem range_values_in_s from to st l : in_s from = true -> in_s to = true ->
+  range_values TS from to st = Ok l -> Forall (fun x => in_s x = true) l.
+Proof.
+  intros Hf Ht H. apply Forall_forall. intros x Hx.
+  apply in_s_iff in Hf. apply in_s_iff in Ht. apply in_s_iff.
+  destruct st as [st|]; [|rewrite range_values_default_step in H; set (st := if from <=? to then 1 else -1) in *].
+  all: destruct (Z.lt_trichotomy st 0) as [Hs | [Hs | Hs]].
+  all: try (destruct (range_values_neg_step _ _ _ _ Hs H) as [_ Hin]; apply Hin in Hx as (k & Hk & -> & Hlt); nia).
+  all: try (destruct (range_values_pos_step _ _ _ _ Hs H) as [_ Hin]; apply Hin in Hx as (k & Hk & -> & Hlt); nia).
+  - subst st. rewrite range_values_zero_step in H. injection H as <-.
+    destruct (from =? to); [destruct Hx | destruct Hx as [<- | []]; lia].
+  - unfold st in Hs. destruct (from <=? to); discriminate.
+Qed.
+
+Example ex_range : range_values TS 1 10 (Some 3) = Ok [1; 4; 7] /\ range_values TS 10 6 None = Ok [10; 9; 8; 7]
+  /\ range_values TS 3 3 None = Ok [] /\ range_values TS 5 6 (Some 0) = Ok [5] /\ range_values TS 5 5 (Some 0) = Ok []
+  /\ range_values TS 1 10 (Some (-1)) = Ok [] /\ range_values TS 10 1 (Some (-4)) = Ok [10; 6; 2]
+  /\ range_values TS 2147483646 2147483647 (Some 2) = Undef.
+Proof. vm_compute. auto 10. Qed.
+
+(** * 13. Family statements (used verbatim by Properties_C24.v) *)
+
+Theorem closure_family a b : in_s a = true -> in_s b = true ->
+  (forall r, In (Some r) [sadd a b; ssub a b; smul a b; sdiv a b; smod a b; sneg a;
+                          udiv a b; umod a b; sexp a b; uexp a b] -> in_s r = true) /\
+  Forall (fun r => in_s r = true)
+    [uadd a b; usub a b; umul a b; band a b; bor a b; bxor a b; bnot a; shl a b; shr_s a b; shr_u a b;
+     land a b; lor a b; lxor a b; lnot a; smax a b; smin a b; umax a b; umin a b].
+Proof.
+  intros Ha Hb. split.
+  - intros r H. cbn [In] in H. decompose [or] H; clear H; try contradiction.
+    + eapply sadd_in_s; eauto.
+    + eapply ssub_in_s; eauto.
+    + eapply smul_in_s; eauto.
+    + eapply sdiv_in_s; eauto.
+    + eapply (smod_in_s a b); eauto.
+    + eapply sneg_in_s; eauto.
+    + match goal with H : udiv _ _ = _ |- _ => apply udiv_spec in H; tauto end.
+    + match goal with H : umod _ _ = _ |- _ => apply umod_spec in H; tauto end.
+    + eapply sexp_in_s; eauto.
+    + eapply uexp_in_s; eauto.
+  - repeat constructor.
+    + apply uadd_in_s. + apply usub_in_s. + apply umul_in_s.
+    + apply band_in_s; assumption. + apply bor_in_s; assumption. + apply bxor_in_s; assumption.
+    + apply bnot_in_s; assumption.
+    + apply shl_in_s. + apply shr_s_in_s; assumption. + apply shr_u_in_s.
+    + apply land_in_s. + apply lor_in_s. + apply lxor_in_s. + apply lnot_in_s.
+    + apply smax_in_s; assumption. + apply smin_in_s; assumption.
+    + apply umax_in_s; assumption. + apply umin_in_s; assumption.
+Qed.
+
+Theorem wrap_family z :
+  (- 2 ^ 31 <= wrap z < 2 ^ 31 /\ (wrap z - z) mod 2 ^ 32 = 0 /\
+   forall r, - 2 ^ 31 <= r < 2 ^ 31 -> (r - z) mod 2 ^ 32 = 0 -> r = wrap z) /\
+  (0 <= u z < 2 ^ 32 /\ (u z - z) mod 2 ^ 32 = 0) /\
+  u (wrap z) = z mod 2 ^ 32 /\
+  (- 2 ^ 31 <= z < 2 ^ 31 -> wrap (u z) = z /\ wrap z = z).
+Proof.
+  split; [|split; [apply u_spec | split; [apply u_wrap|]]].
+  - destruct (wrap_spec z) as [H1 H2]. apply in_s_iff in H1. split; [exact H1|]. split; [exact H2|].
+    intros r Hr. apply wrap_unique, in_s_iff, Hr.
+  - intros H. apply in_s_iff in H. split; [apply wrap_u | apply wrap_id]; exact H.
+Qed.
+
+Theorem unsigned_arith_family a b :
+  u (uadd a b) = (u a + u b) mod 2 ^ 32 /\
+  u (usub a b) = (u a - u b) mod 2 ^ 32 /\
+  u (umul a b) = (u a * u b) mod 2 ^ 32 /\
+  (forall r, udiv a b = Some r <-> (u b <> 0 /\ in_s r = true /\ u r = u a / u b)) /\
+  (forall r, umod a b = Some r <-> (u b <> 0 /\ in_s r = true /\ u r = u a mod u b)) /\
+  (udiv a b = None <-> u b = 0) /\ (umod a b = None <-> u b = 0).
+Proof.
+  split; [apply uadd_spec|]. split; [apply usub_spec|]. split; [apply umul_spec|].
+  split; [intros r; apply udiv_spec|]. split; [intros r; apply umod_spec|].
+  split; [apply udiv_defined_iff | apply umod_defined_iff].
+Qed.
+
+Theorem signed_arith_family a b : in_s a = true -> in_s b = true ->
+  (forall r, sadd a b = Some r <-> (r = a + b /\ - 2 ^ 31 <= a + b < 2 ^ 31)) /\
+  (forall r, ssub a b = Some r <-> (r = a - b /\ - 2 ^ 31 <= a - b < 2 ^ 31)) /\
+  (forall r, smul a b = Some r <-> (r = a * b /\ - 2 ^ 31 <= a * b < 2 ^ 31)) /\
+  (forall r, sneg a = Some r <-> (r = - a /\ a <> MIN_S)) /\
+  (forall r, sdiv a b = Some r <-> (b <> 0 /\ ~ (a = MIN_S /\ b = -1) /\ r = Z.quot a b)) /\
+  (forall r, smod a b = Some r <-> (b <> 0 /\ ~ (a = MIN_S /\ b = -1) /\ r = Z.rem a b)) /\
+  (forall r, sadd a b = Some r -> uadd a b = r) /\
+  (forall r, ssub a b = Some r -> usub a b = r) /\
+  (forall r, smul a b = Some r -> umul a b = r).
+Proof.
+  intros Ha Hb.
+  split; [intros r; apply sadd_spec|]. split; [intros r; apply ssub_spec|].
+  split; [intros r; apply smul_spec|].
+  split. { intros r. rewrite sneg_spec. apply in_s_iff in Ha. unfold MIN_S. rewrite pow2_31 in *. lia. }
+  split; [intros r; apply sdiv_spec; assumption|]. split; [intros r; apply smod_spec|].
+  split; [apply sadd_uadd|]. split; [apply ssub_usub | apply smul_umul].
+Qed.
+
+Theorem bitwise_family a b :
+  u (band a b) = Z.land (u a) (u b) /\ u (bor a b) = Z.lor (u a) (u b) /\
+  u (bxor a b) = Z.lxor (u a) (u b) /\ bnot a = - a - 1 /\ u (bnot a) = 2 ^ 32 - 1 - u a /\
+  forall i, 0 <= i < 32 ->
+    Z.testbit (u (band a b)) i = Z.testbit (u a) i && Z.testbit (u b) i /\
+    Z.testbit (u (bor a b)) i = Z.testbit (u a) i || Z.testbit (u b) i /\
+    Z.testbit (u (bxor a b)) i = xorb (Z.testbit (u a) i) (Z.testbit (u b) i) /\
+    Z.testbit (u (bnot a)) i = negb (Z.testbit (u a) i).
+Proof.
+  split; [apply band_spec|]. split; [apply bor_spec|]. split; [apply bxor_spec|].
+  split; [apply bnot_eq|]. split; [apply bnot_spec|]. intros i Hi.
+  split; [apply band_bits, Hi|]. split; [apply bor_bits, Hi|]. split; [apply bxor_bits, Hi | apply bnot_bits, Hi].
+Qed.
+
+Theorem shift_family a b :
+  let k := u b mod 32 in
+  shcount b = k /\
+  u (shl a b) = (u a * 2 ^ k) mod 2 ^ 32 /\
+  shr_s a b = a / 2 ^ k /\
+  u (shr_u a b) = u a / 2 ^ k /\
+  (forall b', u b' mod 32 = k -> shl a b' = shl a b /\ shr_s a b' = shr_s a b /\ shr_u a b' = shr_u a b).
+Proof.
+  cbv zeta. rewrite <- shcount_spec.
+  split; [reflexivity|]. split; [apply shl_spec|]. split; [apply shr_s_spec|]. split; [apply shr_u_spec|].
+  intros b' H. apply shift_count_mod. rewrite H, shcount_spec. reflexivity.
+Qed.
+
+Theorem logical_family a b :
+  (land a b = 1 <-> (a <> 0 /\ b <> 0)) /\ (land a b = 0 \/ land a b = 1) /\
+  (lor a b = 1 <-> (a <> 0 \/ b <> 0)) /\ (lor a b = 0 \/ lor a b = 1) /\
+  (lnot a = 1 <-> a = 0) /\ (lnot a = 0 \/ lnot a = 1) /\
+  (lxor a b = 0 \/ lxor a b = 1) /\
+  lxor a b = b2z ((truthy a || truthy b) && negb (Bool.eqb (negb (truthy a)) (negb (truthy b)))).
+Proof.
+  pose proof (logical_01 a b) as (H1 & H2 & H3 & H4).
+  split; [apply land_spec|]. split; [exact H1|]. split; [apply lor_spec|]. split; [exact H2|].
+  split; [apply lnot_spec|]. split; [exact H4|]. split; [exact H3 | apply lxor_spec].
+Qed.
+
+Theorem minmax_family a b :
+  smax a b = Z.max a b /\ smin a b = Z.min a b /\
+  u (umax a b) = Z.max (u a) (u b) /\ u (umin a b) = Z.min (u a) (u b) /\
+  (umax a b = a \/ umax a b = b) /\ (umin a b = a \/ umin a b = b).
+Proof.
+  split; [reflexivity|]. split; [reflexivity|]. split; [apply umax_spec|]. split; [apply umin_spec|].
+  split; [apply umax_choice | apply umin_choice].
+Qed.
+
+Theorem compare_family a b : in_s a = true -> in_s b = true ->
+  slt a b = (a <? b) /\ sle a b = (a <=? b) /\ ult a b = (u a <? u b) /\ ule a b = (u a <=? u b) /\
+  ult a b = xorb (slt a b) (xorb (a <? 0) (b <? 0)) /\
+  ult a a = false /\ (ult a b = false -> ult b a = false -> a = b) /\
+  (forall c, ult a b = true -> ult b c = true -> ult a c = true).
+Proof.
+  intros Ha Hb. split; [reflexivity|]. split; [reflexivity|]. split; [reflexivity|]. split; [reflexivity|].
+  split; [apply ult_slt; assumption|]. split; [apply ult_irrefl|]. split; [apply ult_total; assumption|].
+  intros c. apply ult_trans.
+Qed.
+
+Theorem exp_family a b :
+  (0 <= b -> forall r, sexp a b = Some r <-> (r = a ^ b /\ - 2 ^ 31 <= a ^ b < 2 ^ 31)) /\
+  (b < 0 -> sexp a b = if a =? 0 then None else Some (Z.quot 1 (a ^ (- b)))) /\
+  (forall r, uexp a b = Some r <-> (u a ^ u b < 2 ^ 32 /\ in_s r = true /\ u r = u a ^ u b)).
+Proof.
+  split; [intros Hb r; apply sexp_spec, Hb|]. split; [apply sexp_neg_spec | intros r; apply uexp_spec].
+Qed.
+
+Theorem string_order_family a b c :
+  (bytes_ltb a b = true <-> lex_lt a b) /\ bytes_ltb a a = false /\
+  (bytes_ltb a b = true -> bytes_ltb b c = true -> bytes_ltb a c = true) /\
+  (bytes_ltb a b = false -> bytes_ltb b a = false -> a = b).
+Proof.
+  split; [apply bytes_ltb_lex|]. split; [apply bytes_ltb_irrefl|].
+  split; [apply bytes_ltb_trans | apply bytes_ltb_total].
+Qed.
+
+Theorem substr_family s idx len :
+  (0 <= idx <= Z.of_nat (length s) -> 0 <= len ->
+     substr s idx len = firstn (Z.to_nat len) (skipn (Z.to_nat idx) s)) /\
+  (0 <= idx <= Z.of_nat (length s) -> len < 0 -> substr s idx len = skipn (Z.to_nat idx) s) /\
+  (idx < 0 \/ Z.of_nat (length s) < idx -> substr s idx len = []) /\
+  (length (substr s idx len) <= length s)%nat.
+Proof.
+  split; [apply substr_spec|]. split; [apply substr_neg_len|].
+  split; [apply substr_out_of_range | apply substr_length_le].
+Qed.
+
+Theorem to_string_family z : in_s z = true ->
+  fact_signed (dec_of_Z z) = Some z /\ to_number (dec_of_Z z) = Some z.
+Proof. intros H. split; [apply dec_of_Z_fact_signed | apply to_number_dec_of_Z]; exact H. Qed.
+
+(** * 14. Concrete instances of the hypotheses used above (non-vacuity) *)
+Ltac ex_triv :=
+  repeat match goal with |- _ /\ _ => split end;
+  first [ reflexivity | discriminate | lia | (vm_compute; reflexivity) | (vm_compute; discriminate)
+        | (intros [? ?]; discriminate) ].
+Example ex_hyp_in_s : in_s MIN_S = true /\ in_s MAX_S = true /\ in_s (-7) = true /\ in_s 2 = true
+  /\ in_s (2 ^ 31) = false /\ in_s (- 2 ^ 31 - 1) = false.
+Proof. ex_triv. Qed.
+Example ex_hyp_wrap_unique : in_s (-1) = true /\ (-1 - 4294967295) mod 2 ^ 32 = 0 /\ wrap 4294967295 = -1.
+Proof. ex_triv. Qed.
+Example ex_hyp_sdiv : in_s (-7) = true /\ in_s 2 = true /\ 2 <> 0 /\ ~ (-7 = MIN_S /\ 2 = -1)
+  /\ sdiv (-7) 2 = Some (Z.quot (-7) 2) /\ smod (-7) 2 = Some (Z.rem (-7) 2).
+Proof. ex_triv. Qed.
+Example ex_hyp_sadd_uadd : sadd 2147483646 1 = Some 2147483647 /\ uadd 2147483646 1 = 2147483647.
+Proof. ex_triv. Qed.
+Example ex_hyp_sexp : 0 <= 10 /\ - 2 ^ 31 <= 2 ^ 10 < 2 ^ 31 /\ (-3 < 0) /\ 2 <= Z.abs (-3) /\ 32 <= 40
+  /\ u 3 ^ u 4 < 2 ^ 32 /\ 2 <= u (-1) /\ 32 <= u (-1).
+Proof. ex_triv. Qed.
+Example ex_hyp_ult : in_s (-1) = true /\ in_s 1 = true /\ ((-1 <? 0) <> (1 <? 0)) /\ ((3 <? 0) = (4 <? 0))
+  /\ ult 5 5 = false /\ ult 1 2 = true /\ ult 2 (-1) = true /\ ult 1 (-1) = true.
+Proof. ex_triv. Qed.
+Example ex_hyp_strings : (0 <= 1 <= Z.of_nat (length [1;2;3;4;5]%N) /\ 0 <= 3 /\ -1 < 0
+  /\ (1 <= 12)%nat /\ 0 <= 907 < 10 ^ Z.of_nat 12 /\ in_s (-42) = true
+  /\ bytes_ltb [1]%N [2]%N = true /\ bytes_ltb [2]%N [2;0]%N = true /\ bytes_ltb [1]%N [2;0]%N = true).
+Proof. ex_triv. Qed.
+Example ex_hyp_range : 0 < 3 /\ range_values TS 1 10 (Some 3) = Ok [1; 4; 7]
+  /\ -4 < 0 /\ range_values TS 10 1 (Some (-4)) = Ok [10; 6; 2] /\ in_s 1 = true /\ in_s 10 = true.
+Proof. ex_triv. Qed.
+Example ex_hyp_bits : in_s (-5) = true /\ 31 <= 40 /\ Z.testbit (-5) 40 = Z.testbit (-5) 31 /\ 0 <= 7 < 32.
+Proof. ex_triv. Qed.
+
+(* NOT PROVED / NOT COVERED in this file:
+   - range_values for the unsigned type (TU): only the signed generator is characterised above
+     (the unsigned branch wraps each value and has a different default-step rule: runRangeBackward).
+   - sexp / uexp are specified against exact integer exponentiation; that glibc's double-precision
+     std::pow returns exactly a^b whenever a^b is an integer below 2^53 is an assumption of the model
+     (Word32Defs.sexp), validated only by the correspondence check, not proved here.
+   - Outside the defined domain the interpreter (direct double -> int32 cast, undefined) and the
+     synthesised code (cast through int64_t, wraps) differ for EXP/UEXP; the model returns None there.
+   - The string conversions of floats (to_string(float), to_float) and FEXP (std::pow on floats) are not
+     modelled. *)
